@@ -1,5 +1,6 @@
 import Memterm.Proofs.InvStep
 import Memterm.Proofs.SparseStep
+import Memterm.Proofs.SparseKeys
 import Memterm.Proofs.ColInv
 
 /-
@@ -92,6 +93,16 @@ theorem sparse_reachable_wellformed (env : Env) (columns lines : Nat) (hc : 1 â‰
 /-- one step, any operation -/
 theorem sparse_step_refines (env : Env) (ss : Sparse.SScreen) (c : Call) (h : Inv (Sparse.abs ss)) :
     Sparse.abs (Sparse.step env ss c) = step env (Sparse.abs ss) c := Sparse.abs_step env ss c h
+
+/-- NOTHING HIDDEN, every history: in every reachable state of the HashMap buffer model every row key is a
+    row of the screen and every cell key a column of it (the representation half of "well-formed"; the
+    implementation's dumped buffers are checked for the same on every transition: HIDDEN) -/
+theorem sparse_reachable_keys (env : Env) (columns lines : Nat) (hc : 1 â‰¤ columns) (hl : 1 â‰¤ lines)
+    (hdc : columns < dimBound) (hdl : lines < dimBound) (cs : List Call) (ha : âˆ€ c âˆˆ cs, c.argOk = true) :
+    Sparse.KeysIn (cs.foldl (Sparse.step env) (Sparse.init columns lines)) := by
+  have hi : Inv (Sparse.abs (Sparse.init columns lines)) := by
+    rw [Sparse.abs_init]; exact inv_init columns lines hc hl hdc hdl
+  exact Sparse.keysIn_run env cs (Sparse.keysIn_init columns lines) hi ha
 
 end C09
 end Memterm
